@@ -43,6 +43,15 @@ class IndexExpander(ReuseTransformer):
             return x[c]
         return x
 
+    def variable(self, x):
+        """Apply to variable.
+
+        The expansion of a variable depends on the current component and
+        index values, so the per-label cache of ReuseTransformer must not be
+        used: the expression is expanded in place and the label is dropped.
+        """
+        return self.visit(x.ufl_operands[0])
+
     def form_argument(self, x):
         """Apply to form_argument."""
         sh = x.ufl_shape
